@@ -39,7 +39,7 @@ class Env(object):
         spyne.const.MIN_GC_INTERVAL = float('inf')
         from spyne import Application, Service, srpc, rpc, Ignored, Fault, MethodContext
         from spyne.model.primitive import Unicode, Integer, Boolean
-        from spyne.model.complex import ComplexModel, Array, Iterable
+        from spyne.model.complex import ComplexModel, ComplexModelBase, Array, Iterable
         from spyne.protocol.xml import XmlDocument
         from spyne.protocol.soap import Soap11
         from spyne.protocol.json import JsonDocument
@@ -161,15 +161,21 @@ def native(c, E=None):
     raise ValueError(c)
 
 
-def wire_view(sig, res):
-    """the wire client's view of what NullServer handed to the direct caller"""
+def wire_view(sig, res, cfg=None):
+    """the wire client's view of what NullServer handed to the direct caller (model: `wireViewP`); `cfg` is the
+    measured configuration of the protocol (fact `bareNone`: a missing member-less object arrives as an empty one)"""
     if 'ok' in res:
         v = res['ok']
         if isinstance(v, dict) and 'ig' in v:
             n = out_len(sig)
-            return {'ok': {'l': [None] * n} if (sig['style'] == 'wrapped' and n >= 2) else None}
-        if isinstance(v, dict) and 'g' in v:
-            return {'ok': {'l': v['g']}}
+            v = {'l': [None] * n} if (sig['style'] == 'wrapped' and n >= 2) else None
+        elif isinstance(v, dict) and 'g' in v:
+            v = {'l': v['g']}
+        r = sig['returns']
+        if v is None and cfg and cfg.get('bareNone') == 'emptyInstance' and sig['style'] != 'wrapped' \
+                and r and isinstance(r.get('one'), list) and r['one'][1] == []:
+            v = {'o': [r['one'][0], []]}
+        return {'ok': v}
     return res
 
 
@@ -397,7 +403,7 @@ class Program(object):
                     inst = p._doc_to_object(ctx, out_msg, doc)
                     return {'ok': {'l': [canon_wire(getattr(inst, k, None), E) for k in keys]}}
                 if no_return(sig):
-                    return {'ok': None}
+                    return self.nothing(None if doc is None else p._from_dict_value(ctx, self.name, out_msg, doc, None))
                 v = None if doc is None else p._from_dict_value(ctx, self.name, out_msg, doc, None)
                 return {'ok': canon_wire(v, E)}
             root = E.etree.fromstring(raw)
@@ -414,10 +420,23 @@ class Program(object):
                 vs = [canon_wire(getattr(inst, k, None), E) for k in keys]
                 return {'ok': vs[0] if len(keys) == 1 else {'l': vs}}
             if no_return(sig):
-                return {'ok': None}
+                return self.nothing(p.from_element(ctx, out_msg, root))
             return {'ok': canon_wire(p.from_element(ctx, out_msg, root), E)}
         except Exception as e:
             return {'exc': 'client:' + type(e).__name__}
+
+
+def _nothing(self, v):
+    """nothing is declared to come back: the reply carries the synthesised, member-less response wrapper, as nil or
+    as an empty element; both mean None to the caller. Anything else is not 'nothing'."""
+    out_msg = self.desc.out_message
+    if v is None or (isinstance(v, self.E.ComplexModelBase) and len(out_msg._type_info) == 0
+                     and isinstance(v, out_msg.__orig__ or out_msg)) or v == []:
+        return {'ok': None}
+    return {'exc': 'client:content-where-nothing-is-declared'}
+
+
+Program.nothing = _nothing
 
 
 def fault_code(code):
@@ -541,6 +560,10 @@ def _measure_facts(E):
         _, out = p.call_wire(proto, [], [])
         cfg['noneSingle'] = 'nil' if out == {'ok': None} else \
             ('emptyObject' if out == {'ok': {'o': ['P', [['a', None], ['b', None]]]}} else 'other:' + json.dumps(out))
+        p = prog('out_bare', ['a'], ['int'], ret_one('Ack'), ['Ack'], {'k': 'const', 'v': None})
+        _, out = p.call_wire(proto, [{'i': '1'}], [])
+        cfg['bareNone'] = 'nil' if out == {'ok': None} else \
+            ('emptyInstance' if out == {'ok': {'o': ['Ack', []]}} else 'other:' + json.dumps(out))
         f[proto] = cfg
     return f
 
@@ -557,11 +580,12 @@ def facts_lean(f):
     b = lambda x: 'true' if x else 'false'
 
     def cfg(c):
-        return '{ bareOut := .%s, shortOut := .%s, bareIn := .%s, noneSingle := .%s }' % (
+        return '{ bareOut := .%s, shortOut := .%s, bareIn := .%s, noneSingle := .%s, bareNone := .%s }' % (
             ctor(c['bareOut'], ('first', 'wholeList'), 'wholeList'),
             ctor(c['shortOut'], ('padNone', 'indexError'), 'indexError'),
             ctor(c['bareIn'], ('methodName', 'className'), 'className'),
-            ctor(c['noneSingle'], ('nil', 'emptyObject'), 'emptyObject'))
+            ctor(c['noneSingle'], ('nil', 'emptyObject'), 'emptyObject'),
+            ctor(c['bareNone'], ('nil', 'emptyInstance'), 'nil'))
     return '''-- GENERATED by harness/c18.py (T1) from /repo on every run. Do not edit.
 import SpyneModel.Null
 namespace SpyneModel.Generated
@@ -610,6 +634,9 @@ def fact_witness(name, proto=None):
     if name == 'ewMembers':
         return dict(sig={'style': 'wrapped', 'params': ['a'], 'bareArg': None, 'returns': {'one': None}}, ptypes=['int'],
                     rtypes=['int'], script={'k': 'pick', 'idx': [0]}, pos=[{'i': '5'}], kw=[], protos=list(PROTOS))
+    if name == 'bareNone':
+        return dict(sig={'style': 'out_bare', 'params': ['a'], 'bareArg': None, 'returns': ret_one('Ack')}, ptypes=['int'],
+                    rtypes=['Ack'], script={'k': 'const', 'v': None}, pos=[{'i': '1'}], kw=[], protos=[proto])
     if name == 'noneSingle':
         return dict(sig={'style': 'wrapped', 'params': [], 'bareArg': None, 'returns': ret_one('P')}, ptypes=[],
                     rtypes=['P'], script={'k': 'const', 'v': None}, pos=[], kw=[], protos=[proto])
@@ -933,8 +960,8 @@ class Runner(object):
                                 dict(rep, op='kw-vs-pos', positional=base_out, got=[recv, out]))
                 # T3-b NullServer vs the wire
                 if tag in ('pos', 'kw', 'split'):
-                    exp = wire_view(sig, out)
                     for proto in protos:
+                        exp = wire_view(sig, out, ctx.facts.get(proto))
                         keep = {}
                         wrecv, wout = prog.call_wire(proto, pos, [p for p in kw], keep)
                         qw = dict(q, op='wire.call', proto=proto)
@@ -1015,6 +1042,11 @@ def run(ctx):
             if f[proto][k] != good:
                 witness('switch:%s.%s=%s' % (proto, k, f[proto][k]),
                         'wire path %s: %s measured %r (needed: %r)' % (proto, k, f[proto][k], good), k, proto)
+    for proto in PROTOS:
+        if f[proto]['bareNone'] not in ('nil', 'emptyInstance') and f[proto]['bareOut'] == 'first':
+            witness('switch:%s.bareNone=%s' % (proto, f[proto]['bareNone']),
+                    'wire path %s: a None bare response of a member-less class arrives as neither None nor an empty '
+                    'instance: %s' % (proto, f[proto]['bareNone']), 'bareNone', proto)
     if f['kwNoneSkipped'] not in (True, False):
         ctx.proof_broken.append('fact:kwNoneSkipped=%r' % (f['kwNoneSkipped'],))
     # ---- proof
@@ -1113,9 +1145,13 @@ def replay(ctx, obj):
         want = {'ok': {'ig': spec['script']['v']}}
         bad += out != want
         print('expected          :', json.dumps(want), 'same' if out == want else 'DIFFERS')
-    exp = wire_view(spec['sig'], out)
     protos = obj.get('protos') or ([obj['proto']] if obj.get('proto') else list(PROTOS))
+    try:
+        facts = measure_facts(E)
+    except Exception:
+        facts = {}
     for p in protos:
+        exp = wire_view(spec['sig'], out, facts.get(p))
         keep = {}
         wrecv, wout = prog.call_wire(p, pos, kw, keep)
         ok = (wout == exp and wrecv == recv)
